@@ -9,7 +9,7 @@ from .common import Stack
 
 ENTRY = ("map", "flat_inner", "retry", "poll", "throttle", "timeout", "cancel_on_shutdown",
          "nocancel", "proxy", "f_map", "f_flat_map", "f_timeout", "zip", "and", "or", "sequence", "apply")
-HOW = ("value", "exception", "cancel_inner")
+HOW = ("value", "exception", "cancel_inner", "retryable")
 WAIT = ("result", "exception", "wait", "as_completed")
 
 
@@ -17,6 +17,8 @@ def _params():
     out = []
     for ent in ENTRY:
         for how in HOW:
+            if how == "retryable" and ent != "retry":
+                continue
             for w in WAIT:
                 for ncan in (0, 1, 2):
                     if ncan == 2 and w != "result":
@@ -38,6 +40,11 @@ def make(mc, ent):
                 return              # cancelled before anything reached the delegate
             if how == "value":
                 base.complete(0, "v")
+            elif how == "retryable":
+                base.complete(0, exc=E("retry me"))     # in the retry base: re-queued, then succeeds
+                mc.wait_until(lambda: len(base.items) > 1, timeout=5)
+                if len(base.items) > 1:
+                    base.complete(1, "v")
             elif how == "exception":
                 base.complete(0, exc=E2("x"))
             else:
@@ -119,6 +126,10 @@ def body(mc, p):
         mc.emit("ret", op=label, val=brief(r))
         return r
 
+    def bad_cb(fut):
+        mc.emit("cb", cb="bad", done=fut.done(), s=snapshot(fut))
+        raise E("callback raises")
+    guarded("add_done_callback:bad", f.add_done_callback, bad_cb)
     guarded("add_done_callback:early", f.add_done_callback, Cb("early"))
 
     def completer():
@@ -184,7 +195,7 @@ def check(x):
     # (ii) cancel returns a bool, no method raises
     for e in log:
         if e["kind"] == "raise":
-            if e["op"] == "result" and e["exc"] == "E2":
+            if e["op"] == "result" and e["exc"] in ("E2", "E"):
                 continue            # result() re-raises the stored exception: documented
             x.require(False, "future-method-raised", op=e["op"].split(":")[0], exc=e["exc"], detail=e["msg"])
         if e["kind"] == "ret" and e["op"].startswith("cancel"):
@@ -198,7 +209,7 @@ def check(x):
         x.require(late[0]["val"] is False, "cancel-true-after-normal-finish")
     # (iii) callbacks exactly once, with done() true
     if final[0] != "pending":
-        for lab in ("early", "racing", "late"):
+        for lab in ("bad", "early", "racing", "late"):
             cbs = [e for e in log if e["kind"] == "cb" and e["cb"] == lab]
             x.require(len(cbs) == 1, "callback-count", cb=lab, n=len(cbs))
             x.require(all(e["done"] for e in cbs), "callback-before-done", cb=lab)
